@@ -91,6 +91,50 @@ func c10Replay(cs *c10Case) (sig, msg string) {
 	return "", ""
 }
 
+// c10NilData: roots built without data (a nil map) are trees of their own like any other: what is Set on one is seen by no
+// other tree. (Sequential, after the parallel replays: a root that aliased process-wide state would make them race.)
+func c10NilData(c *Ctx) {
+	c.Eval("nildata")
+	c.Rule("nildata")
+	r1 := plush.NewContextWith(nil)
+	r1.Set("a", 1)
+	r1.Set("len", "user")
+	ch := r1.New().(*plush.Context)
+	ch.Set("b", 2)
+	r2 := plush.NewContext()
+	r3 := plush.NewContextWith(nil)
+	r4 := plush.NewContextWithOuter(nil, nil)
+	got := fmt.Sprintf("r1:%v,%v ch:%v,%v", r1.Value("a"), r1.Value("len"), ch.Value("a"), ch.Value("b"))
+	for _, r := range []*plush.Context{r2, r3, r4, r2.New().(*plush.Context)} {
+		got += fmt.Sprintf(" other:%v,%v,%s", r.Value("a"), r.Value("b"), c10Observe(r.Value("len")))
+	}
+	want := "r1:1,user ch:1,2 other:<nil>,<nil>,BUILTIN other:<nil>,<nil>,BUILTIN other:<nil>,<nil>,BUILTIN other:<nil>,<nil>,BUILTIN"
+	if got != want {
+		c.Fail("nildata", fmt.Sprintf("roots without data: observed %s, the chain semantics gives %s", got, want), map[string]interface{}{"gen": "c10NilData"})
+	}
+}
+
+// c10Deep: the chain semantics does not depend on how long the chain is (template recursion makes chains of hundreds of scopes)
+func c10Deep(c *Ctx) {
+	for _, depth := range []int{10, 255, 256, 257, 1000} {
+		c.Eval(fmt.Sprintf("deepchain:%d", depth))
+		c.Rule("deepchain")
+		root := plush.NewContext()
+		root.Set("a", 1)
+		root.Set("len", "user")
+		cur := root
+		for i := 0; i < depth; i++ {
+			cur = cur.New().(*plush.Context)
+		}
+		root.Set("b", 2) // after the chain exists
+		got := fmt.Sprintf("a=%v b=%v len=%v has=%v/%v", cur.Value("a"), cur.Value("b"), cur.Value("len"), cur.Has("a"), cur.Has("zz"))
+		if want := "a=1 b=2 len=user has=true/false"; got != want {
+			c.Fail("deepchain", fmt.Sprintf("a context %d scopes below the root reads %s, the chain semantics gives %s", depth, got, want),
+				map[string]interface{}{"gen": "c10Deep", "depth": depth})
+		}
+	}
+}
+
 func c10ReplayV(cs *c10Case, withOuter bool) (sig, msg string) {
 	defer func() {
 		if r := recover(); r != nil {
@@ -232,6 +276,7 @@ func checkC10(c *Ctx) error {
 		return err
 	}
 	c.exhaustive = true
+	c10Deep(c)
 	// seeded random walks far beyond the exhaustive bound
 	nsim, depth := 40, 20
 	if c.Thorough() {
@@ -243,6 +288,7 @@ func checkC10(c *Ctx) error {
 	if err != nil {
 		return err
 	}
+	c10NilData(c)
 	// the as-built constructors (InjectByHas) must be distinguishable by the model: Agree fails there.
 	r, err := RunTLC(TLCOpts{Module: "ContextMC", Cfg: "ContextMC.asbuilt.cfg", Workers: 4, Seed: c.Seed, Timeout: 5 * time.Minute, NoCases: true}, nil)
 	if err != nil {
